@@ -51,8 +51,9 @@ type OpDesc struct {
 
 var ExactOps = []string{"append", "unweld", "remove_unref", "remove_null", "flip", "to_points", "filter", "crop",
 	"split", "weld", "set_indices", "set_attr", "set_materials", "repeat", "translate", "scale3", "scale2",
-	"rotate", "apply_trs", "center"}
-var FrameOps = []string{"normalize3", "normalize2", "smooth_normals", "flat_normals", "smooth_implicit", "laplacian", "laplacian_axis", "scale_along_normal"}
+	"rotate", "apply_trs", "center", "slice", "scale_along_normal"}
+var FrameOps = []string{"normalize3", "normalize2", "smooth_normals", "flat_normals", "smooth_implicit", "laplacian", "laplacian_axis"}
+
 
 func IsFrameOp(op string) bool {
 	for _, f := range FrameOps {
@@ -257,6 +258,15 @@ func Apply(o OpDesc, ins []modeling.Mesh) (outs []modeling.Mesh, class string, m
 			return transform(meshops.CenterAttribute3DTransformer{Attribute: o.Attr}, m), "ok", ""
 		}
 		return one(meshops.CenterFloat3Attribute(m, o.Attr)), "ok", ""
+	case "slice":
+		plane := geometry.NewPlaneFromPoints(v3(o.Data[0]), v3(o.Data[1]), v3(o.Data[2]))
+		if tv {
+			above := transform(meshops.SliceByPlaneTransformer{Attribute: o.Attr, SliceToKeep: meshops.AbovePlane, Plane: plane}, m)
+			below := transform(meshops.SliceByPlaneTransformer{Attribute: o.Attr, SliceToKeep: meshops.BelowPlane, Plane: plane}, m)
+			return []modeling.Mesh{above[0], below[0]}, "ok", ""
+		}
+		above, below := meshops.SliceByPlaneWithAttribute(m, plane, o.Attr)
+		return []modeling.Mesh{above, below}, "ok", ""
 	// ---- float-valued single-attribute transforms
 	case "normalize3":
 		if tv {
@@ -428,6 +438,15 @@ func (o OpDesc) Coq(n *Names) string {
 		return fmt.Sprintf("(OApplyTRS %d %s)", n.ID("Position"), coqTRS(o.TRS[0]))
 	case "center":
 		return fmt.Sprintf("(OCenter %d)", a)
+	case "slice":
+		A, B, C := coqZVec(o.Data[0]), coqZVec(o.Data[1]), coqZVec(o.Data[2])
+		return fmt.Sprintf("(OSlice %d (plane_clip (cross (vzip Z.sub %s %s) (vzip Z.sub %s %s)) %s))", a, B, A, C, A, A)
+	case "scale_along_normal":
+		a2 := o.Attr2
+		if o.Variant == "t" && strings.TrimSpace(a2) == "" {
+			a2 = "Normal"
+		}
+		return fmt.Sprintf("(OScaleAlongNormal %d %d %s)", a, n.ID(a2), hx.CoqZ(o.PT))
 	}
 	panic("meshgen: not an exact op: " + o.Op)
 }
@@ -448,12 +467,6 @@ func (o OpDesc) FrameCoq(n *Names) (term string, targetArity int, targetName str
 		return fmt.Sprintf("(FSmoothImplicit %d %d)", n.ID("Position"), n.ID("Normal")), 3, "Normal"
 	case "laplacian", "laplacian_axis":
 		return fmt.Sprintf("(FLaplacian %d)", n.ID(a)), 3, a
-	case "scale_along_normal":
-		a2 := o.Attr2
-		if o.Variant == "t" && strings.TrimSpace(a2) == "" {
-			a2 = "Normal"
-		}
-		return fmt.Sprintf("(FScaleAlongNormal %d %d)", n.ID(a), n.ID(a2)), 3, a
 	}
 	panic("meshgen: not a frame op: " + o.Op)
 }
@@ -503,7 +516,7 @@ func RandomOp(r *hx.Rng, d Desc, kinds []string) OpDesc {
 		op = hx.Pick(r, kinds)
 		fits := true
 		switch op {
-		case "remove_null", "flip", "weld", "split", "smooth_normals", "flat_normals", "smooth_implicit":
+		case "remove_null", "flip", "weld", "split", "smooth_normals", "flat_normals", "smooth_implicit", "slice":
 			fits = topo == modeling.TriangleTopology
 		case "crop":
 			fits = topo == modeling.PointTopology
@@ -522,7 +535,7 @@ func RandomOp(r *hx.Rng, d Desc, kinds []string) OpDesc {
 		switch op {
 		case "scale2", "normalize2":
 			fits = fits && hasArity(2)
-		case "translate", "scale3", "rotate", "center", "normalize3", "laplacian", "laplacian_axis", "weld", "remove_null", "crop", "scale_along_normal":
+		case "translate", "scale3", "rotate", "center", "normalize3", "laplacian", "laplacian_axis", "weld", "remove_null", "crop", "scale_along_normal", "slice":
 			fits = fits && hasArity(3)
 		case "apply_trs", "repeat", "smooth_normals", "flat_normals", "smooth_implicit":
 			fits = fits && d.Has(3, "Position")
@@ -537,7 +550,7 @@ func RandomOp(r *hx.Rng, d Desc, kinds []string) OpDesc {
 		"filter": {"", "t"}, "crop": {"", "t"}, "translate": {"", "t", "m"}, "scale3": {"", "t", "m"},
 		"scale2": {"", "t"}, "rotate": {"", "t", "m"}, "center": {"", "t"}, "normalize3": {"", "t"},
 		"normalize2": {"", "t"}, "smooth_normals": {"", "t"}, "flat_normals": {"", "t"},
-		"smooth_implicit": {"", "t"}, "laplacian": {"", "t"}, "scale_along_normal": {"", "t"}, "laplacian_axis": {""},
+		"smooth_implicit": {"", "t"}, "laplacian": {"", "t"}, "scale_along_normal": {"", "t"}, "laplacian_axis": {""}, "slice": {"", "t"},
 	}
 	if vs, ok := variants[op]; ok {
 		o.Variant = hx.Pick(r, vs)
@@ -655,6 +668,9 @@ func RandomOp(r *hx.Rng, d Desc, kinds []string) OpDesc {
 		o.Attr = pickAttr(r, d, 3, "Position")
 		o.Attr2 = pickAttr(r, d, 3, "Normal")
 		o.PT = int64(r.Range(-3, 3))
+	case "slice":
+		o.Attr = pickAttr(r, d, 3, "Position")
+		o.Data = randPlane(r, attrData(d, 3, o.Attr))
 	}
 	if o.Variant == "t" && o.Op != "filter" && o.Op != "normalize2" && o.Op != "scale_along_normal" {
 		// Transformer fallback attribute: likely when the mesh has the default attribute
@@ -667,4 +683,62 @@ func RandomOp(r *hx.Rng, d Desc, kinds []string) OpDesc {
 		}
 	}
 	return o
+}
+
+// randPlane returns three integer points A, B, C spanning the slicing plane (normal (B-A) x (C-A)).
+// Either axis-aligned through (or one unit beside) a vertex of the data - vertices exactly ON the plane
+// are then decided exactly by the float code (normal +-e_k, origin on the axis) - or a generic plane on
+// which no vertex of the data lies (|n.(p-A)| >= 1 in integers, far above float rounding).
+func randPlane(r *hx.Rng, data [][]int64) [][]int64 {
+	axis := func() [][]int64 {
+		k := r.Intn(3)
+		A := randVec(r, 3, -6, 6)
+		if len(data) > 0 && r.Chance(4, 5) {
+			A = append([]int64{}, hx.Pick(r, data)...)
+			A[k] += int64(r.Range(-1, 1))
+		}
+		u, w := (k+1)%3, (k+2)%3
+		if r.Bool() {
+			u, w = w, u // flips the normal
+		}
+		B, C := append([]int64{}, A...), append([]int64{}, A...)
+		B[u] += int64(r.Range(1, 3))
+		C[w] += int64(r.Range(1, 3))
+		return [][]int64{A, B, C}
+	}
+	if len(data) == 0 || r.Chance(1, 2) {
+		return axis()
+	}
+	for tries := 0; tries < 12; tries++ {
+		A := append([]int64{}, hx.Pick(r, data)...)
+		for k := range A {
+			A[k] += int64(r.Range(-2, 2))
+		}
+		B, C := randVec(r, 3, -4, 4), randVec(r, 3, -4, 4)
+		for k := range A {
+			B[k] += A[k]
+			C[k] += A[k]
+		}
+		n := crossI64(A, B, C)
+		if n == [3]int64{} {
+			continue
+		}
+		ok := true
+		for _, p := range data {
+			if n[0]*(p[0]-A[0])+n[1]*(p[1]-A[1])+n[2]*(p[2]-A[2]) == 0 {
+				ok = false
+				break
+			}
+		}
+		if ok {
+			return [][]int64{A, B, C}
+		}
+	}
+	return axis()
+}
+
+func crossI64(a, b, c []int64) [3]int64 {
+	u := [3]int64{b[0] - a[0], b[1] - a[1], b[2] - a[2]}
+	v := [3]int64{c[0] - a[0], c[1] - a[1], c[2] - a[2]}
+	return [3]int64{u[1]*v[2] - u[2]*v[1], u[2]*v[0] - u[0]*v[2], u[0]*v[1] - u[1]*v[0]}
 }
